@@ -23,6 +23,7 @@ structure DSt where
   s : St := initSt default
   cs : CSt := { sh := { heap := [default] } }
   conc : Bool := false
+  started : Bool := false
 
 def levelLetter (l : Int) : String :=
   if l == -1 then "D" else if l == 0 then "I" else if l == 1 then "W" else if l == 2 then "E" else "P"
@@ -74,19 +75,21 @@ def showCState (s : CSt) : String :=
 def ctxAnswer (s : St) : String := s!"ctx {s.ctxs.length - 1}"
 
 def handle (d : DSt) (ws : List String) : DSt × String :=
+  if !d.started && ws.head? != some "start" then (d, "bad-op") else
   match ws with
   | "start" :: "seq" :: v :: lvl :: gf =>
     match variant v, lvl.toInt? with
-    | some (a, f), some l => ({ F := f, A := a, s := initSt (.base l gf), conc := false }, "ok")
+    | some (a, f), some l => ({ F := f, A := a, s := initSt (.base l gf), conc := false, started := true }, "ok")
     | _, _ => (d, "bad-op")
   | "start" :: "conc" :: v :: lvl :: rest =>
     match variant v, lvl.toInt?, splitBar rest with
     | some (a, f), some l, gf :: progs =>
       match progs.mapM (fun p => p.mapM parseCall) with
-      | some ps => ({ F := f, A := a, cs := cinit (.base l gf) ps, conc := true }, "ok")
+      | some ps => ({ F := f, A := a, cs := cinit (.base l gf) ps, conc := true, started := true }, "ok")
       | none => (d, "bad-op")
     | _, _, _ => (d, "bad-op")
   | ["step", i] =>
+    if !d.conc then (d, "bad-op") else
     match i.toNat? with
     | some i =>
       let r := cstepL d.A d.F d.cs i
@@ -97,24 +100,23 @@ def handle (d : DSt) (ws : List String) : DSt × String :=
     match m.toInt? with
     | some m => (d, " | ".intercalate ((List.range d.s.ctxs.length).map (probeCtx d.s m)))
     | none => (d, "bad-op")
-  | "init" :: c :: fs => match c.toNat? with
-    | some c => let s := step d.F d.s (.init c fs); ({ d with s := s }, ctxAnswer s)
+  | op :: c :: rest =>
+    -- calls on a context: the context must exist
+    match c.toNat? with
     | none => (d, "bad-op")
-  | "child" :: c :: fs => match c.toNat? with
-    | some c => let s := step d.F d.s (.child c fs); ({ d with s := s }, ctxAnswer s)
-    | none => (d, "bad-op")
-  | "wf" :: c :: fs => match c.toNat? with
-    | some c => let s := step d.F d.s (.withFields c fs); ({ d with s := s }, ctxAnswer s)
-    | none => (d, "bad-op")
-  | ["derive", c] => match c.toNat? with
-    | some c => let s := step d.F d.s (.derive c); ({ d with s := s }, ctxAnswer s)
-    | none => (d, "bad-op")
-  | ["dbg", c] => match c.toNat? with
-    | some c => let s := step d.F d.s (.enableDebug c); ({ d with s := s }, ctxAnswer s)
-    | none => (d, "bad-op")
-  | ["sl", c, l] => match c.toNat?, l.toInt? with
-    | some c, some l => let s := step d.F d.s (.setLevel c l); ({ d with s := s }, ctxAnswer s)
-    | _, _ => (d, "bad-op")
+    | some c =>
+      if d.conc || c ≥ d.s.ctxs.length then (d, "bad-op") else
+      let o : Option Op := match op, rest with
+        | "init", fs => some (.init c fs)
+        | "child", fs => some (.child c fs)
+        | "wf", fs => some (.withFields c fs)
+        | "derive", [] => some (.derive c)
+        | "dbg", [] => some (.enableDebug c)
+        | "sl", [l] => l.toInt?.map (.setLevel c)
+        | _, _ => none
+      match o with
+      | some o => let s := step d.F d.s o; ({ d with s := s }, ctxAnswer s)
+      | none => (d, "bad-op")
   | _ => (d, "bad-op")
 
 end Drv.Log
